@@ -28,6 +28,9 @@ from interp import Interp, ty_name
 import check_c16 as C16
 
 
+TRICKY_NAMES = ["map_a_b", "sem2", "a_b", "x1y2", "poset_v2_x", "PosetCaps", "r2d2", "a1_b2_c", "abc_d_e_f", "two__underscores", "HTTPServer", "v_1_0"]
+
+
 def strip(x):
     """AST without source positions"""
     if isinstance(x, dict):
@@ -160,7 +163,9 @@ def check_program(task):
             viol("a link_name is imported more than once", [k for k, v in list(imp_m.items()) + list(imp_c.items()) if len(v) != 1])
         if set(comps) != set(exported_m):
             viol("the component files and the embedded rule submodules export different symbols", {"component only": sorted(set(comps) - set(exported_m)), "module only": sorted(set(exported_m) - set(comps))})
-        theory = M.snake(name)
+        theory = os.path.basename(task["rs_m"])[:-len(".eql.rs")]      # the compiler's own snake-casing of the file name
+        if os.path.basename(task["rs_c"]) != os.path.basename(task["rs_m"]):
+            viol("the two builds name the module file differently", [os.path.basename(task["rs_m"]), os.path.basename(task["rs_c"])])
         for sym in sorted(set(comps) | set(exported_m)):
             res["obligations"] += 1
             if not re.match(r"^eql_%d_%s_" % (len(theory), re.escape(theory)), sym):
@@ -340,6 +345,26 @@ def main():
             tasks.append({"program": base[:-4], "label": name, "rs_m": pr["rs"], "rs_c": rs_c, "comp_dir": cd, "eql": pr["eql"], "U": 2,
                           "Us": [2] if (tier == "quick" or pr.get("kind") == "repo") else [2, 3],
                           "solver": os.environ.get("VERIF_SOLVER", "kissat"), "timeout": 120 if tier == "quick" else 900})
+    # the same small program under file names that stress the name mangling (snake / camel round trips, digits, single letters)
+    kernel = open(os.path.join(P.VERIF, "corpus", "kernels", "poset.eql")).read()
+    for i, nm in enumerate(TRICKY_NAMES if tier != "quick" else TRICKY_NAMES[:6]):
+        d = os.path.join(scratch, "c19_name_%d" % i)
+        shutil.rmtree(d, ignore_errors=True)
+        os.makedirs(os.path.join(d, "src"))
+        eql = os.path.join(d, "src", nm + ".eql")
+        open(eql, "w").write(kernel)
+        p1 = P.sh([exe, os.path.join(d, "src"), os.path.join(d, "out_m")], timeout=600)
+        p2 = P.sh([exe, os.path.join(d, "src"), os.path.join(d, "out_c"), "--build-type", "component", "--component-out-dir", os.path.join(d, "comp"),
+                   "--runtime-rlib-path", rlib, "--rustc-path", rustc], timeout=600)
+        if p1.returncode != 0 or p2.returncode != 0:
+            inconc_pre.append("file name %s: the compiler fails: %s" % (nm, (p1.stderr + p2.stderr)[-300:]))
+            continue
+        ms, cs, cds = glob.glob(os.path.join(d, "out_m", "*.eql.rs")), glob.glob(os.path.join(d, "out_c", "*.eql.rs")), glob.glob(os.path.join(d, "comp", "*"))
+        if len(ms) != 1 or len(cs) != 1 or len(cds) != 1:
+            inconc_pre.append("file name %s: unexpected outputs %s %s %s" % (nm, ms, cs, cds))
+            continue
+        tasks.append({"program": nm, "label": "name:" + nm, "rs_m": ms[0], "rs_c": cs[0], "comp_dir": cds[0], "eql": eql, "U": 2, "Us": [2],
+                      "solver": os.environ.get("VERIF_SOLVER", "kissat"), "timeout": 120})
     import multiprocessing as mp
     with mp.get_context("fork").Pool(min(16, max(1, len(tasks))), maxtasksperchild=1) as pool:
         results = pool.map(check_program, tasks, chunksize=1)
